@@ -278,6 +278,11 @@ def gen_shared(rng, idx):
 def gen_net(rng, idx, profile):
     import netgen
 
+    if profile == "ssmask":
+        # STRIDED_SLICE mask algebra on ranks 1-4 (harness/gen_ssmask.py)
+        import gen_ssmask
+
+        return gen_ssmask.c01_net(rng, idx, make_builder)
     if profile == "shared":
         return gen_shared(rng, idx)
     if profile == "softmax":
@@ -1010,6 +1015,12 @@ def classify_failure(o, ans):
     """stable key of an open known finding (see known_findings.txt), or None. Only the structure of the source network
     is consulted; the verdict itself is Lean's."""
     g = o.get("src_graph") or []
+    if ans.endswith("verdict=fail") or ans.startswith("err:out:"):
+        # STRIDED_SLICE begin below -dim / end above dim: the reference clamps, constraint_slice_ranges does not (patch C01-45)
+        import gen_ssmask
+
+        if gen_ssmask.out_of_range((o.get("desc") or {}).get("desc")):
+            return "strided-slice-out-of-range-begin-end-not-clamped"
     if "weights_do_not_fit_the_IFM_depth" in ans:
         # AVERAGE_POOL_2D with a width stride >= 4 lowered to a convolution with one input channel
         shapes, strides = o.get("src_shapes") or [], o.get("src_strides") or []
@@ -1128,6 +1139,12 @@ def main():
     t0 = time.time()
     rw = c01_rewrites.run(ck)
     ck.count("seconds_rewrite_streams", round(time.time() - t0))
+    # STRIDED_SLICE specification streams (Spec/StridedSliceRef.lean vs NumPy; the real constraint_slice_ranges vs the Spec)
+    import c01_ssmask
+    import pending
+
+    pending.register(ck)          # repairs written but not yet in the tree under test (harness/pending.py)
+    ss_stats = c01_ssmask.run(ck, 12000 if ck.thorough else 2000, 12000 if ck.thorough else 2000)
     n = 40000 if ck.thorough else 6000
     k_inputs = 5 if ck.thorough else 4
     jobs = [(0, 0, "known_" + nm, k_inputs) for nm in ("slice_relu", "fused_act_relu", "pad_conv_reshape", "quantize_relu", "reshape_relu",
@@ -1140,6 +1157,8 @@ def main():
                                                               "resize_reshape", "mean_reshape", "widepool_reshape",
                                                               "transpose_relu", "sqdiff_reshape", "dilation3_uint8", "shared_dilation3", "shared_tconv",
                                                               "prelu_reshape", "transpose_lut_mul", "protected_reshape_inplace")]
+    # round-5 families first (so that the wall-clock budget of the quick tier never cuts them)
+    jobs += [(ck.seed, i, "ssmask", k_inputs) for i in range(2400 if ck.thorough else 300)]
     jobs += [(ck.seed, i, PROFILES[i % len(PROFILES)], k_inputs) for i in range(n)]
     ctx = multiprocessing.get_context("fork")
     t0 = time.time()
@@ -1234,6 +1253,7 @@ def main():
         "distinct_nontrivial": len(nontrivial) + len(rw.nontrivial),
         "rewrite_stream_evaluations": rw.evaluations,
         "rewrite_stream_distinct": len(rw.nontrivial),
+        **ss_stats,
         "inputs_per_network": k_inputs,
         "rule": "evaluation = one (generated network, sampled configuration) compiled by the real compiler; judged = both "
                 "models executed by Lean on every input set; non-trivial = at least one NPU operation was executed by the "
